@@ -87,3 +87,95 @@ macro_rules! impl_pair {
 impl_pair!(WeightedMean, "WeightedMean", observe_wm);
 impl_pair!(WeightedMeanWithError, "WeightedMeanWithError", observe_wme);
 impl_pair!(Covariance, "Covariance", observe_cov);
+
+/// A histogram type over a fixed, valid edge vector (0, 1, …, LEN) as a `Chunky` estimator:
+/// items are samples, out-of-range samples are rejected by `add` and leave it unchanged.
+#[derive(Clone)]
+pub struct HistChunk<H: Hist>(pub H);
+
+impl<H: Hist> Chunky for HistChunk<H> {
+    type Item = f64;
+    const NAME: &'static str = H::NAME;
+    fn fresh() -> Self {
+        HistChunk(H::from_ranges_((0..=H::LEN).map(|i| i as f64).collect()).expect("valid edges"))
+    }
+    fn collect(items: &[f64]) -> Self {
+        let mut h = Self::fresh();
+        for x in items {
+            let _ = h.0.add_(*x);
+        }
+        h
+    }
+    fn merge_(&mut self, o: &Self) {
+        self.0.merge_(&o.0)
+    }
+    fn add_item(&mut self, i: f64) {
+        let _ = self.0.add_(i);
+    }
+    fn item_bits(i: &f64) -> Vec<u64> {
+        vec![i.to_bits()]
+    }
+    fn dbg(&self) -> String {
+        self.0.dbg()
+    }
+    fn observe_(&self) -> Obs {
+        let bins = self.0.bins_();
+        let total: u64 = bins.iter().sum();
+        let mut vals: Vec<(Stat, Val)> = Vec::new();
+        for (i, b) in bins.iter().enumerate() {
+            vals.push((Stat::Central(i.min(200) as u8), Val::F(*b as f64)));
+        }
+        for (i, v) in self.0.variances_().into_iter().enumerate() {
+            vals.push((Stat::Standardized(i.min(200) as u8), Val::F(v)));
+        }
+        for r in self.0.ranges_() {
+            vals.push((Stat::P, Val::F(r)));
+        }
+        Obs { len: Some(Ok(total)), is_empty: None, vals }
+    }
+    fn item_json(i: &f64) -> Value {
+        fshow(*i)
+    }
+    fn item_parse(v: &Value) -> Option<f64> {
+        fparse(v)
+    }
+}
+
+/// Quantile (median by default) as an add-only `Chunky` estimator (it has no merge).
+#[derive(Clone)]
+pub struct QChunk(pub average::Quantile);
+impl Chunky for QChunk {
+    type Item = f64;
+    const NAME: &'static str = "Quantile";
+    fn fresh() -> Self {
+        QChunk(average::Quantile::default())
+    }
+    fn collect(items: &[f64]) -> Self {
+        let mut q = Self::fresh();
+        for x in items {
+            average::Estimate::add(&mut q.0, *x);
+        }
+        q
+    }
+    fn merge_(&mut self, _o: &Self) {
+        unreachable!("Quantile has no merge")
+    }
+    fn add_item(&mut self, i: f64) {
+        average::Estimate::add(&mut self.0, i)
+    }
+    fn item_bits(i: &f64) -> Vec<u64> {
+        vec![i.to_bits()]
+    }
+    fn dbg(&self) -> String {
+        format!("{:?}", self.0)
+    }
+    fn observe_(&self) -> Obs {
+        observe_quantile(&self.0)
+    }
+    fn item_json(i: &f64) -> Value {
+        fshow(*i)
+    }
+    fn item_parse(v: &Value) -> Option<f64> {
+        fparse(v)
+    }
+}
